@@ -289,6 +289,26 @@ def colorbar_contract_rule(ctx, rid):
 
 
 # ------------------------------------------------------------------ C17 data rules
+def _once_per_iteration(g, H, nodes):
+    """'once' | 'never' | 'skippable' | 'repeated': how often the loop body
+    headed by H passes through one of `nodes` per iteration (exception edges
+    are not followed)."""
+    if not nodes:
+        return "never"
+    it = [b for b, l in g.succ[H.id] if l == "iter"][0]
+    ids = {n.id for n in nodes}
+    if it not in ids and H.id in (g.reachable(start=it, blocked_nodes=list(ids), skip_labels=("exc",)) | {it}):
+        return "skippable"
+    for a in nodes:
+        for b, l in g.succ[a.id]:
+            if l == "exc":
+                continue
+            r = g.reachable(start=b, blocked_nodes=[H.id], skip_labels=("exc",)) | {b}
+            if any(x in r for x in ids):
+                return "repeated"
+    return "once"
+
+
 def c17_data_rules(ctx, rid_roles, rid_mask, rid_lock, rid_color):
     prog = ctx.prog
     P = prog.need_cls(CORE + ".Plotter")
@@ -403,8 +423,17 @@ def c17_data_rules(ctx, rid_roles, rid_mask, rid_lock, rid_color):
         rm.bad(ctx.finding(rid_mask, gen, gen.node, "not every yielded array is filtered by the point mask (filtered: %s): series components get out of step" % sorted(filt), construct="mask-application"), "mask application")
     ys = [n for n in walk_shallow(gen.node) if isinstance(n, ast.Expr) and isinstance(n.value, ast.Yield)]
     lp = [n for n in walk_shallow(gen.node) if isinstance(n, ast.For) and "self._z_vals" in norm(n.iter)]
-    if len(ys) == 1 and len(lp) == 1 and ys[0] in lp[0].body and norm(ys[0].value.value) == "data":
-        rm.ok("exactly one series is yielded per z value, in the order of _z_vals")
+    how = None
+    if len(lp) == 1 and ys:
+        gg = build_cfg(gen.node)
+        hh = [n for n in gg.nodes if n.kind == "for" and n.ast is lp[0]]
+        yn = [n for n in gg.nodes if n.kind == "stmt" and n.ast in ys]
+        if len(hh) == 1 and len(yn) == len(ys):
+            how = _once_per_iteration(gg, hh[0], yn)
+    if len(ys) == 1 and how == "once" and norm(ys[0].value.value) == "data":
+        rm.ok("exactly one series is yielded per z value on every path through the loop body, in the order of _z_vals")
+    elif how in ("skippable", "repeated"):
+        rm.bad(ctx.finding(rid_mask, gen, ys[0], "the yield of a series is %s within one iteration over the z values: the number of series no longer equals the number of z values, so every later series is drawn with the label, colour and marker of another z value" % how, construct="one-series-per-z"), "one per z")
     else:
         rm.bad(ctx.finding(rid_mask, gen, gen.node, "the generator does not yield exactly one series per z value", construct="one-series-per-z"), "one per z")
     hx = P.methods.get("prepare_x_vals_histogram")
@@ -768,6 +797,46 @@ def c18_rules(ctx):
     else:
         r10.bad(ctx.finding("C18.R10", ph, tc[0], "the per-panel colours (`%s`) and the legend do not share the global max_mag: each panel is normalised to its own maximum, so equal z values get different colours in different panels and disagree with the legend" % norm(tc[0])[:70],
                             construct="heatmap-max_mag"), "shared colour scale")
+
+    # ---- R11 automatic hues of distinct coordinates are distinct
+    r11 = ctx.rule("C18.R11", "automatic hues: N equally spaced hues over the sweep exclude the end point whenever the default sweep is a whole number of turns (hue is periodic)", floor=1)
+    ls = []
+    for fn in [init] + list(init.nested.values()):
+        for c in walk_shallow(fn.node):
+            if isinstance(c, ast.Call) and norm(c.func).rsplit(".", 1)[-1] in ("linspace", "arange") and "autohue_sweep" in norm(c):
+                ls.append((fn, c))
+    need(len(ls) == 1, "anchor lost: the generator of the automatic hues (linspace over autohue_sweep)")
+    fn, c = ls[0]
+    ctx.touch(fn)
+    dflt = None
+    cands = []
+    for node in ast.walk(init.module.tree):
+        if isinstance(node, (ast.FunctionDef, ast.AsyncFunctionDef)):
+            a = node.args
+            names = [x.arg for x in a.args][len(a.args) - len(a.defaults):]
+            cands += [d for nme, d in list(zip(names, a.defaults)) + [(x.arg, d) for x, d in zip(a.kwonlyargs, a.kw_defaults) if d is not None] if nme == "autohue_sweep"]
+        elif isinstance(node, ast.Call) and norm(node.func) == "dict" and getattr(node, "_parent", None) is not None and isinstance(getattr(node, "_parent"), ast.Assign) and getattr(getattr(node, "_parent"), "_parent", None) is init.module.tree:
+            cands += [k.value for k in node.keywords if k.arg == "autohue_sweep"]
+        elif isinstance(node, ast.Dict) and isinstance(getattr(node, "_parent", None), ast.Assign) and getattr(getattr(node, "_parent"), "_parent", None) is init.module.tree:
+            cands += [v for k, v in zip(node.keys, node.values) if isinstance(k, ast.Constant) and k.value == "autohue_sweep"]
+    need(len(cands) == 1, "anchor lost: the default of autohue_sweep (%d candidates)" % len(cands))
+    try:
+        dflt = float(ast.literal_eval(cands[0]))
+    except Exception:
+        raise AnalysisError("idiom changed: default of autohue_sweep is not a literal")
+    need(dflt is not None, "anchor lost: default of autohue_sweep")
+    ep = arg(c, None, "endpoint")
+    if norm(c.func).endswith("arange"):
+        raise AnalysisError("idiom changed: automatic hues built with arange")
+    if dflt != int(dflt) or dflt == 0:
+        r11.ok("default sweep %s is not a whole number of turns: the end point does not coincide with the start" % dflt)
+    elif isinstance(ep, ast.Constant) and ep.value is False:
+        r11.ok("linspace(start, start + sweep, N, endpoint=False) with default sweep %s: N distinct hues" % dflt)
+    elif ep is None or (isinstance(ep, ast.Constant) and ep.value is True):
+        r11.bad(ctx.finding("C18.R11", fn, c, "the automatic hues include the end point of the sweep; with the default sweep of %s turn(s) the last hue equals the first (hue is periodic), so the first and the last coordinate mapped to `hue` are drawn with the same colours although distinct default hues remain" % dflt,
+                            construct="autohue-endpoint"), "autohue endpoint")
+    else:
+        raise AnalysisError("idiom changed: endpoint=%s in the automatic hue generator" % norm(ep))
 
 
 def _parents(n):
